@@ -919,6 +919,10 @@ impl<'de: 'b, 'a, 'b> DeserializeSeed<'de> for ManifestSeed<'a, 'b> {
                                             self.result.error(ErrorCode::E100,
                                                               format!("Inventory manifest key '{}' contains a path with a leading/trailing '/'. Found: {}",
                                                                       digest, path));
+                                        } else if path.is_empty() {
+                                            self.result.error(ErrorCode::E099,
+                                                              format!("Inventory manifest key '{}' contains an empty path",
+                                                                      digest));
                                         } else {
                                             match ContentPath::try_from(&*path) {
                                                 Ok(content_path) => {
@@ -1031,6 +1035,10 @@ impl<'de: 'b, 'a, 'b, 'c> DeserializeSeed<'de> for StateSeed<'a, 'b, 'c> {
                                         self.result.error(ErrorCode::E053,
                                                               format!("In inventory version {}, state key '{}' contains a path with a leading/trailing '/'. Found: {}",
                                                                       self.version, digest, path));
+                                    } else if path.is_empty() {
+                                        self.result.error(ErrorCode::E052,
+                                                              format!("In inventory version {}, state key '{}' contains an empty path",
+                                                                      self.version, digest));
                                     } else {
                                         match self.data.insert_path::<A::Error>(path.clone()) {
                                             Ok(logical_path) => path_refs.push(logical_path),
